@@ -98,7 +98,7 @@ class LoopMixin:
             return "symbolic", Space(v.n, lambda k: (mk_int(k), v.elem(k)), v.sources)
         from .values import AbsSeq
         if isinstance(it, AbsSeq):
-            return "symbolic", Space(it.n, lambda k: OpaqueV("element"), [])
+            return "symbolic", Space(it.n, (it.elem if it.elem is not None else (lambda k: OpaqueV("element"))), [])
         if isinstance(it, (tuple, str, bytes, frozenset)):
             return "concrete", list(it)
         if isinstance(it, dict):
@@ -170,6 +170,8 @@ class LoopMixin:
                     names.add(n.id)
                 elif isinstance(n, ast.Attribute) and isinstance(n.ctx, ast.Store) and isinstance(n.value, ast.Name):
                     fields.add((n.value.id, n.attr))
+                elif isinstance(n, ast.Subscript) and isinstance(n.ctx, (ast.Store, ast.Del)) and isinstance(n.value, ast.Name):
+                    mutated.add(n.value.id)         # x[k] = v mutates x
                 elif isinstance(n, ast.AugAssign) and isinstance(n.target, ast.Name):
                     names.add(n.target.id)
                     mutated.add(n.target.id)
@@ -180,6 +182,12 @@ class LoopMixin:
                     for t in n.targets:
                         if isinstance(t, ast.Subscript) and isinstance(t.value, ast.Name):
                             mutated.add(t.value.id)
+                if isinstance(n, ast.Call) and isinstance(n.func, ast.Attribute) and isinstance(n.func.value, ast.Name):
+                    # a method whose contract has side effects on its receiver: those fields change in the loop too
+                    for key, c in self.registry.items():
+                        if key.split(":", 1)[-1].split("#")[0].endswith("." + n.func.attr) and getattr(c, "modifies", None):
+                            for fld in c.modifies:
+                                fields.add((n.func.value.id, fld))
         return names, fields, mutated
 
     def havoc_value(self, name, v, st, hints):
@@ -187,6 +195,8 @@ class LoopMixin:
             return hints[name].fresh(name, st)
         if isinstance(v, bool) or (isinstance(v, Sym) and v.tag == "bool"):
             return Sym("bool", fresh(name, T.B))
+        if isinstance(v, Sym) and v.tag == "optint":
+            return Sym("optint", fresh(name, T.OptInt))
         if is_int(v):
             return Sym("int", fresh(name, T.I))
         if isinstance(v, Sym) and v.tag in SORT_OF_TAG:
@@ -198,7 +208,18 @@ class LoopMixin:
             return Sym("str", fresh(name, T.SI))
         return POISON
 
+    GHOST_CONST = ("term.H", "term.W", "term.rows0", "os.main_thread", "os.entry")
+
+    def havoc_ghost(self, st):
+        """ghost state written by callee effects inside the loop body is unknown at an arbitrary iteration"""
+        for k in sorted(st.ghost):
+            v = st.ghost[k]
+            if k in self.GHOST_CONST or k.startswith("ctx.") or not z3.is_expr(v):
+                continue
+            st.ghost[k] = fresh("ghost_" + k.replace(".", "_"), v.sort())
+
     def havoc(self, st, names, fields, mutated, hints):
+        self.havoc_ghost(st)
         for nm in sorted(names | mutated):
             if nm not in st.env:
                 st.env[nm] = POISON if nm not in hints else hints[nm].fresh(nm, st)
@@ -227,7 +248,15 @@ class LoopMixin:
                     else:
                         o.items, o.tag, o.t, o.origin = None, tag, t, None
                 continue
-            from .values import AbsV
+            from .values import AbsV, SymDict
+            if isinstance(v, Ref) and (isinstance(st.deref(v), SymDict) or
+                                       (isinstance(st.deref(v), DictV) and getattr(self.contract, "symdict", False))):
+                nd = SymDict(fresh(nm + "_present", z3.ArraySort(T.I, T.B)), fresh(nm + "_val", z3.ArraySort(T.I, T.I)), fresh(nm + "_nonempty", T.B))
+                if nm in names:
+                    st.env[nm] = st.alloc(nd)
+                else:
+                    st.heap[v.oid] = nd
+                continue
             if isinstance(v, Ref) and isinstance(st.deref(v), (DictV, AbsV)):
                 if getattr(self.contract, "abstract", False):
                     if nm in names:
